@@ -174,6 +174,7 @@ pub fn main(args: &[String]) -> i32 {
                             seq,
                             reset: false,
                             chained: false,
+                            native: e.native,
                             probe: false,
                             pre: e.from.clone(),
                             env: e.env.clone(),
